@@ -77,6 +77,11 @@ def make_actions(cfg, exc=RuntimeError):
     for n in cfg.nts:
         def mk(name):
             def act(context, nodes):
+                if name == cfg.start:
+                    # custom parsing state: "if not given initialized to dict" for every parse, so the count
+                    # of reductions of the start rule seen through context.extra starts at 1 in every parse
+                    context.extra["count"] = context.extra.get("count", 0) + 1
+                    return (name, tuple(nodes), context.extra["count"])
                 return (name, tuple(nodes))
             return act
         acts[n] = mk(n)
@@ -107,12 +112,13 @@ def conv(v):
     return v
 
 
-def parse_outcome(parser, spec, text):
+def parse_outcome(parser, spec, text, fresh=False):
     is_glr = spec["cls"] == "GLR"
     try:
         import pv.budget as budget
         with budget.watchdog(1.0):
-            r = parser.parse(text)
+            # the oracle passes the documented default explicitly: nothing a process has seen before can be in it
+            r = parser.parse(text, extra={}) if fresh else parser.parse(text)
     except budget.WatchdogTimeout:
         return ("timeout",)
     except parglare.SyntaxError as e:
@@ -169,7 +175,7 @@ def interpret(case, fresh_each_time):
             if p is None:
                 outcomes.append(("no-parser",))
                 continue
-            outcomes.append(parse_outcome(p, spec, inputs[op["input"] % len(inputs)]))
+            outcomes.append(parse_outcome(p, spec, inputs[op["input"] % len(inputs)], fresh=fresh_each_time))
     return outcomes
 
 
